@@ -78,7 +78,8 @@ NINEK = os.path.join(core.VENV_BIN, '9k')
 
 def floors(tier):
     if tier == 'quick':
-        return {'path:extra-dep': 15, 'path:include': 50,
+        return {'submodule:identity-checked': 150, 'submodule:kept-checked': 150,
+                'path:extra-dep': 15, 'path:include': 50,
                 'run:configure': 150, 'run:regenerate': 60, 'run:make': 20,
                 'probe:foreign': 5000, 'probe:own': 300, 'probe:builtin': 300,
                 'submodule:return-checked': 150, 'script:executions': 600,
@@ -86,7 +87,8 @@ def floors(tier):
                 'path:exec-step': 100, 'path:disk-output': 60,
                 'args:spelling-pair': 120, 'args:model': 90,
                 'args:regen-compare': 80, 'distinct_nontrivial': 90}
-    return {'path:extra-dep': 300, 'path:include': 1000,
+    return {'submodule:identity-checked': 3000, 'submodule:kept-checked': 3000,
+            'path:extra-dep': 300, 'path:include': 1000,
             'run:configure': 3000, 'run:regenerate': 1500, 'run:make': 350,
             'probe:foreign': 100000, 'probe:own': 6000, 'probe:builtin': 6000,
             'submodule:return-checked': 3000, 'script:executions': 12000,
@@ -348,6 +350,12 @@ def check_log(cx, run, ctxname, expected, observed, targets):
                            {'run': run, 'script': e['me'], 'path': e['path'],
                             'got': o})
                 continue
+            res.ev('submodule:identity-checked')
+            if o.get('fresh') is not True:
+                cx.violate(('exports', 'same-object-returned-twice', ctxname),
+                           [e['me'], e['k'], 'fresh'],
+                           {'run': run, 'script': e['me'], 'inst': e['inst'],
+                            'path': e['path'], 'got': o['got']})
             if not enc_match(e['got'], o['got']):
                 ek = [k for k, _ in e['got']['__dict__']]
                 ok_ = [k for k, _ in o['got'].get('__dict__', [])] \
@@ -355,7 +363,11 @@ def check_log(cx, run, ctxname, expected, observed, targets):
                 if ok_ is None:
                     detail = 'not-a-dict'
                 elif set(ok_) - set(ek):
-                    detail = 'extra-keys'
+                    # keys some caller put into an earlier result?
+                    detail = ('caller-mutation-visible'
+                              if all(k.startswith('mut_')
+                                     for k in set(ok_) - set(ek))
+                              else 'extra-keys')
                 elif set(ek) - set(ok_):
                     detail = 'missing-keys'
                 else:
@@ -389,6 +401,21 @@ def check_log(cx, run, ctxname, expected, observed, targets):
                                 'script_dir': ti['dir'], 'written': wr,
                                 'declaration': ti.get('code'),
                                 'expected': x, 'got': g})
+        elif t == 'kept':
+            # what the caller holds at its end: each result still has what the
+            # callee exported plus what this caller itself put there
+            for j, (x, g) in enumerate(zip(e['got'], o.get('got') or [])):
+                res.ev('submodule:kept-checked')
+                if not enc_match(x, g):
+                    cx.violate(('exports', 'earlier-result-changed', ctxname),
+                               [e['me'], e['inst'], j],
+                               {'run': run, 'script': e['me'], 'inst': e['inst'],
+                                'call_index': j, 'expected': x, 'got': g})
+            if len(e['got']) != len(o.get('got') or []):
+                cx.violate(('log', 'sequence', ctxname), [run, 'kept'],
+                           {'run': run, 'script': e['me'],
+                            'expected': len(e['got']),
+                            'observed': len(o.get('got') or [])})
         elif t == 'argv':
             pass
     if len(expected) != len(observed):
